@@ -3,7 +3,7 @@
    property; and the witness that a KeyError raised by the policy comes AFTER the contraction. *)
 From Coq Require Import List NArith Bool Lia.
 From FIM Require Import Base.Assoc Model.Store.
-From FIM Require Import Proofs.IsolationBase Proofs.IsolationShared Proofs.RefineUnique.
+From FIM Require Import Proofs.IsolationBase Proofs.IsolationShared Proofs.RefineGuards Proofs.RefineUnique.
 Import ListNotations.
 Open Scope N_scope.
 
@@ -322,4 +322,88 @@ Proof.
     rewrite (merge_props_spec p mine other mine np Em k). reflexivity.
   - inversion H; subst G'. repeat split; auto; try (intros; eapply Hnoc; eauto). exists mine. split; [apply Hnu|].
     intro k. now destruct (aget k mine).
+Qed.
+
+(* ---------- a failing merge leaves everything unchanged (fix e66ee73) ---------- *)
+Theorem merge_fails_unchanged G g n g2 pol e : snd (s_merge G g n g2 pol) = Err e -> fst (s_merge G g n g2 pol) = G.
+Proof.
+  unfold s_merge. destruct (N.eqb g g2); [reflexivity|]. destruct (negb (pg_graph_exists G g2)); [reflexivity|].
+  destruct (find_node G g n); [|reflexivity]. destruct (find_node G g2 n); [|reflexivity].
+  destruct (nx_node G n0) as [mine|]; [|reflexivity]. destruct (nx_node G n1) as [other|]; [|reflexivity].
+  destruct pol as [pp|]; [destruct (merge_props pp mine other mine)|]; cbn [fst snd]; try reflexivity; discriminate.
+Qed.
+
+Theorem merge_fails_unchanged_step s g n g2 pol e :
+  snd (sstep s (OMerge g n g2 pol)) = Err e -> fst (sstep s (OMerge g n g2 pol)) = s.
+Proof.
+  cbn [sstep]. unfold lift. cbn [fst snd]. intro H. rewrite (merge_fails_unchanged _ _ _ _ _ _ H). now destruct s.
+Qed.
+
+(* ---------- identity properties survive merges whose policy does not name Class ---------- *)
+Lemma merge_props_unnamed pol mine other todo np k :
+  merge_props pol mine other todo = Some np -> aget k pol = None -> aget k np = aget k todo.
+Proof.
+  revert np. induction todo as [|[k0 v] r IH]; cbn [merge_props]; intros np H Hk; [inversion H; reflexivity|].
+  destruct (match aget k0 pol with Some p => policy_value p v (aget k0 other) | None => Some v end) as [x|] eqn:Ex; [|discriminate].
+  destruct (merge_props pol mine other r) as [rest|] eqn:Er; [|discriminate].
+  inversion H; subst np. cbn [aget]. destruct (N.eqb k k0) eqn:E.
+  - apply N.eqb_eq in E; subst k0. rewrite Hk in Ex. exact (eq_sym Ex).
+  - now apply IH.
+Qed.
+
+Lemma merge_props_has pol mine other todo np k :
+  merge_props pol mine other todo = Some np -> ahas k todo = true -> ahas k np = true.
+Proof.
+  revert np. induction todo as [|[k0 v] r IH]; cbn [merge_props]; intros np H Hk; [discriminate Hk|].
+  destruct (match aget k0 pol with Some p => policy_value p v (aget k0 other) | None => Some v end) as [x|]; [|discriminate].
+  destruct (merge_props pol mine other r) as [rest|] eqn:Er; [|discriminate].
+  inversion H; subst np. unfold ahas in *. cbn [aget] in *. destruct (N.eqb k k0); [reflexivity | now apply (IH rest)].
+Qed.
+
+Definition class_scope (o : op) : bool :=
+  match o with OMerge _ _ _ (Some pol) => negb (ahas k_class pol) | _ => true end.
+
+Lemma evolves_merge G g n g2 pol :
+  NoDup (ids G) -> match pol with Some p => ahas k_class p = false | None => True end ->
+  evolves G (fst (s_merge G g n g2 pol)).
+Proof.
+  intros Hnd Hpol. unfold s_merge.
+  destruct (N.eqb g g2); [apply evolves_refl|]. destruct (negb (pg_graph_exists G g2)); [apply evolves_refl|].
+  destruct (find_node G g n) as [u|] eqn:Eu; [|apply evolves_refl].
+  destruct (find_node G g2 n) as [v|] eqn:Ev; [|apply evolves_refl].
+  destruct (nx_node G u) as [mine|] eqn:Emine; [|apply evolves_refl].
+  destruct (nx_node G v) as [other|] eqn:Eother; [|apply evolves_refl].
+  set (G1 := strip_contraction u (contract G u v)).
+  assert (Hgn : gn G1 = filter (fun nd => negb (N.eqb (fst nd) v)) (gn G)).
+  { unfold G1, strip_contraction, contract. cbn [gn]. now rewrite gn_fold_remap. }
+  assert (K : forall np, ident_le mine np -> evolves G (nx_set_node G1 u np)).
+  { intros np Hle id ps ps' Ha Hc. unfold nx_node, nx_set_node in Hc. cbn [gn] in Hc. rewrite aget_set_node in Hc.
+    destruct (N.eqb id u) eqn:E.
+    - apply N.eqb_eq in E; subst id. rewrite Emine in Ha. inversion Ha; subst ps.
+      destruct (aget u (gn G1)); inversion Hc; subst. exact Hle.
+    - rewrite Hgn in Hc. apply (aget_filter_fst (fun i => negb (N.eqb i v))) in Hc. unfold nx_node in Ha.
+      rewrite Ha in Hc. inversion Hc. apply ident_le_refl. }
+  destruct pol as [p|]; cbn [fst].
+  - destruct (merge_props p mine other mine) as [np|] eqn:Em; cbn [fst]; [|apply evolves_refl].
+    apply K. split.
+    + intros k _ Hk. eapply merge_props_has; eauto.
+    + eapply merge_props_unnamed; eauto. unfold ahas in Hpol. now destruct (aget k_class p).
+  - apply K. apply ident_le_refl.
+Qed.
+
+Theorem identity_kept_step_merge s o : SInv s -> class_scope o = true -> evolves (sg s) (sg (fst (sstep s o))).
+Proof.
+  intros HI Hsc. destruct o; try (apply identity_kept_step; [exact HI | reflexivity]).
+  cbn [sstep lift fst sg]. apply evolves_merge; [apply HI|].
+  destruct pol as [p|]; [now apply negb_true_iff in Hsc | exact I].
+Qed.
+
+(* over ALL histories, merges included *)
+Theorem identity_kept_all pre ops :
+  (forall o, In o ops -> class_scope o = true) ->
+  evolves (sg (srun pre init_store)) (sg (srun (pre ++ ops) init_store)).
+Proof.
+  intro H. unfold srun at 2. rewrite fold_left_app.
+  apply (identity_kept_histories_gen class_scope identity_kept_step_merge); [|exact H].
+  apply SInv_run. apply SInv_init.
 Qed.
